@@ -757,7 +757,7 @@ func extBitsRotateLeft64(fr *frame, a []value) value {
 // math/rand: an adversarial oracle.  Intn(n) returns any value in [0,n).
 
 func extRandIntn(fr *frame, a []value) value {
-	usedIntrinsics["math/rand.Intn(arbitrary in range)"]++
+	usedIntrinsics["math/rand.Intn(round-robin from an arbitrary start)"]++
 	n, ok := a[0].(int)
 	if !ok {
 		theEx.unsupported("rand.Intn with symbolic bound")
@@ -765,13 +765,17 @@ func extRandIntn(fr *frame, a []value) value {
 	if n <= 0 {
 		panic(targetPanic{"invalid argument to Intn"})
 	}
-	if theEx.randFixed {
-		return 0
+	ex := theEx
+	if !ex.randStarted {
+		ex.randStarted = true
+		v := ex.freshVar("$rand.start", 16)
+		ex.inputs = append(ex.inputs, InputRec{v.name, "rand", 16})
+		ex.assume(mkCmp(OpUlt, v, mkConst(16, uint64(n))))
+		ex.randNext = int(ex.concretize(v, 0, int64(n-1), "rand"))
 	}
-	v := theEx.freshVar("$rand", 64)
-	theEx.inputs = append(theEx.inputs, InputRec{v.name, "rand", 64})
-	theEx.assume(mkCmp(OpUlt, v, mkConst(64, uint64(n))))
-	return &Sym{v}
+	r := ex.randNext % n
+	ex.randNext++
+	return r
 }
 
 // ---------------------------------------------------------------------
